@@ -3,7 +3,7 @@
 # runs all properties there (SCVERIF_REPO), removes the worktree. Leaves /repo untouched, so it can run beside other jobs.
 BIN=${2:-/verif/bin/scverif}
 WT=/tmp/trywt-$$
-git -C /repo worktree prune
+git -C /repo worktree prune 2>/dev/null
 git -C /repo worktree add -q --detach $WT HEAD || exit 2
 trap 'git -C /repo worktree remove --force $WT 2>/dev/null' EXIT
 cd $WT
